@@ -418,7 +418,7 @@ func (m *btModel) step(op btOp, resp btResp, nowUs int64) (kind string, msg stri
 				obs = *op.Obs
 			}
 			fo := evalFilterRow(op.Pred, obs)
-			predInvalid, predMaybe = fo.required, fo.permitted
+			predInvalid, predMaybe = fo.required || staticRequired(op.Pred), fo.permitted
 			matched = len(fo.outs) > 0 && len(fo.outs[0]) > 0
 			if row.empty() {
 				matched = false
